@@ -199,9 +199,11 @@ def r1_columns(ctx, rep):
     def atom(e):
         if isinstance(e, ast.Call) and isinstance(e.func, ast.Attribute) and e.func.attr == "isspace" and not e.args:
             return ("blank", True)
-        if isinstance(e, ast.Compare) and len(e.ops) == 1 and isinstance(e.comparators[0], ast.Constant):
-            v = e.comparators[0].value
-            if isinstance(e.ops[0], (ast.Eq, ast.NotEq)) and v in ("0", " "):
+        if isinstance(e, ast.Compare) and len(e.ops) == 1 and isinstance(e.ops[0], (ast.Eq, ast.NotEq)) and \
+                any(isinstance(x, ast.Constant) for x in (e.left, e.comparators[0])):
+            # `c == '0'` and `'0' == c` are the same test
+            v = (e.comparators[0] if isinstance(e.comparators[0], ast.Constant) else e.left).value
+            if v in ("0", " "):
                 return ("zero" if v == "0" else "blank", isinstance(e.ops[0], ast.Eq))
         if isinstance(e, ast.Compare) and len(e.ops) == 1 and isinstance(e.ops[0], (ast.In, ast.NotIn)):
             try:
